@@ -262,6 +262,7 @@ fn history_oracle(c: &crate::props::c01::HistoryCase, rec: &Rec, _: &Ctx) -> Res
                 rec.class("history/start-invalid-skipped");
                 return Ok(());
             }
+            let reader = crate::statejson::ParamReader::new(&st).ok_or("the state's parameters cannot be mapped to its basis")?;
             let probe = Probe::new(st, c.kt_start == 0.);
             let model = probe.model.clone();
             model.lock().unwrap().mode = Mode::Agnostic;
@@ -272,11 +273,11 @@ fn history_oracle(c: &crate::props::c01::HistoryCase, rec: &Rec, _: &Ctx) -> Res
                 let _ = opt.optimise_state(probe);
             }));
             let m = model.lock().unwrap_or_else(|e| e.into_inner());
-            m.steps.iter().map(|s| (s.proposal.clone(), s.returned)).collect::<Vec<_>>()
+            (m.steps.iter().map(|s| (s.proposal.clone(), s.returned)).collect::<Vec<_>>(), reader)
         }};
     }
     let wg = crate::statejson::wg(spec.group);
-    let calls: Vec<(Vec<f64>, Option<f64>)> = match &spec.shape {
+    let (calls, reader): (Vec<(Vec<f64>, Option<f64>)>, crate::statejson::ParamReader) = match &spec.shape {
         ShapeSpec::Polygon { .. } | ShapeSpec::Radial { .. } => go!(packing::PackedState::from_group(line_shape(&spec.shape).ok_or("shape")?, &wg).map_err(|e| e.to_string())?),
         _ => go!(packing::PackedState::from_group(mol_shape(&spec.shape).ok_or("shape")?, &wg).map_err(|e| e.to_string())?),
     };
@@ -288,13 +289,12 @@ fn history_oracle(c: &crate::props::c01::HistoryCase, rec: &Rec, _: &Ctx) -> Res
             Some(s) => *s,
             None => continue,
         };
-        let (length, ratio, angle) = if oblique && params.len() == 6 {
-            (params[0], params[1], params[2])
-        } else if !oblique && params.len() == 5 {
-            (params[0], params[1], PI / 2.)
-        } else {
-            rec.class("history/unexpected-basis-skipped");
-            return Ok(());
+        let (length, ratio, angle) = match reader.params(params) {
+            Some(p) => (p.length, p.ratio, p.angle),
+            None => {
+                rec.class("history/unexpected-basis-skipped");
+                return Ok(());
+            }
         };
         let cell_area = Lattice::from_params(length, ratio, angle).area();
         let want = n * area_true / cell_area;
